@@ -3,6 +3,7 @@ mod alloc;
 #[global_allocator]
 static GLOBAL: alloc::CountingAlloc = alloc::CountingAlloc;
 mod backend;
+mod inject;
 mod c19;
 mod c02;
 mod c11;
